@@ -3,6 +3,7 @@ import Np.Proofs.Div
 import Mathlib.Algebra.MvPolynomial.Basic
 import Mathlib.Tactic.Ring
 import Np.Proofs.DivTerm
+import Np.Proofs.DivArr
 /-! C05 — polynomial division: the division identity is an invariant of every reduction step, the loop stops only
 when no term of the remainder is reducible, zero and constant divisors; termination `_partial` (see DESIGN.md) -/
 namespace Np.Props.C05
@@ -114,6 +115,56 @@ theorem divmod_total (ns : List Name) (f d : List (Expo × K))
   obtain ⟨fuel, q, r, h⟩ := Div.divmod_terminates ns.length f d hf hd hfn hdn
   exact ⟨fuel, q, r, h, Div.divmod_identity ns fuel f d q r hfn hf hd h⟩
 end refinement
+
+/-! ### on arrays: `poly_divmod(a, b)` divides element by element after broadcasting (Np/Model/DivArr.lean is what the
+driver runs; Np/Proofs/DivArr.lean) -/
+section arrays
+open Shape
+variable {K : Type} [Field K] [BEq K] [LawfulBEq K]
+
+/-- shapes: `ValueError` iff the shapes do not broadcast; otherwise one (quotient, remainder) slot per element of the
+broadcast shape over the union of the names; the model's own out-of-domain error is unreachable -/
+theorem divmod_array_shape (fuel : Nat) (a b : Arr K) (ha : ∀ d ∈ a.shape, 0 < d) (hb : ∀ d ∈ b.shape, 0 < d) :
+    (divmodArr fuel a b = .error .valueError ↔ bshape a.shape b.shape = none) ∧
+    divmodArr fuel a b ≠ .error .internal ∧
+    ∀ s, bshape a.shape b.shape = some s →
+      ∃ elems, divmodArr fuel a b = .ok (s, a.commonNames b, elems) ∧ elems.length = size s :=
+  divmodArr_shape fuel a b ha hb
+
+/-- **the identity on arrays**: every finished element satisfies `a[σa i] = q_i · b[σb i] + r_i` for the broadcast
+elements, quotient and remainder are sparse term lists with distinct rows, and the remainder is reduced with respect
+to a non-zero term of the divisor element -/
+theorem divmod_array_identity (fuel : Nat) (a b : Arr K) (ha : a.WF) (hb : b.WF) (s : List Nat) (names : List Name)
+    (elems : List (Option (List (Expo × K) × List (Expo × K))))
+    (h : divmodArr fuel a b = .ok (s, names, elems)) :
+    ∃ (σa : Fin (size s) → Fin (size a.shape)) (σb : Fin (size s) → Fin (size b.shape)),
+      (∀ i, (σa i).val = bindex a.shape s i.val) ∧ (∀ i, (σb i).val = bindex b.shape s i.val) ∧
+      ∀ (i : Fin (size s)) (q r : List (Expo × K)), elems[i.val]? = some (some (q, r)) →
+        a.elem (σa i) = denT names q * b.elem (σb i) + denT names r ∧
+        Div.Inv names q ∧ Div.Inv names r ∧
+        (b.elem (σb i) ≠ 0 → ∃ lead : Expo × K, lead.2 ≠ 0 ∧ lead.1.length = names.length ∧
+          coeff (fsN names lead.1) (b.elem (σb i)) = lead.2 ∧
+          ∀ t ∈ r, t.2 ≠ 0 → Div.divides lead.1 t.1 = false) :=
+  divmodArr_identity fuel a b ha hb s names elems h
+
+/-- **termination on arrays**: from some fuel on every element has finished and the result no longer changes -/
+theorem divmod_array_terminates (a b : Arr K) (ha : a.WF) (hb : b.WF)
+    (hpa : ∀ d ∈ a.shape, 0 < d) (hpb : ∀ d ∈ b.shape, 0 < d) (s : List Nat)
+    (hs : bshape a.shape b.shape = some s) :
+    ∃ fuel₀, ∃ qrs : List (List (Expo × K) × List (Expo × K)), qrs.length = size s ∧
+      ∀ fuel ≥ fuel₀, divmodArr fuel a b = .ok (s, a.commonNames b, qrs.map some) :=
+  divmodArr_terminates a b ha hb hpa hpb s hs
+
+/-- a zero divisor element: quotient 0, remainder = the dividend element -/
+theorem divmod_array_zero_divisor (fuel : Nat) (a b : Arr K) (ha : a.WF) (hb : b.WF) (s : List Nat)
+    (names : List Name) (elems : List (Option (List (Expo × K) × List (Expo × K))))
+    (h : divmodArr (fuel + 1) a b = .ok (s, names, elems)) :
+    ∃ (σa : Fin (size s) → Fin (size a.shape)) (σb : Fin (size s) → Fin (size b.shape)),
+      (∀ i, (σa i).val = bindex a.shape s i.val) ∧ (∀ i, (σb i).val = bindex b.shape s i.val) ∧
+      ∀ i : Fin (size s), b.elem (σb i) = 0 →
+        ∃ r, elems[i.val]? = some (some ([], r)) ∧ denT names r = a.elem (σa i) ∧ ∀ t ∈ r, t.2 ≠ 0 :=
+  divmodArr_zero_divisor fuel a b ha hb s names elems h
+end arrays
 
 /-- non-vacuity: (q0³ + q1³ + 1) / (q0 + q1) = q1² − q0 q1 + q0², remainder 1, within 3 steps;
 and the witness of the former two-cycle now stops at once: q0² q1 is not divisible by the leading term q1² -/
